@@ -26,6 +26,12 @@ theorem defmethod_mutates_in_one_section : defmethodMutatesInOneSection = true :
 theorem addMethod_mutates_in_one_section : addMethodMutatesInOneSection = true := by decide
 theorem removeMethod_mutates_in_one_section : removeMethodMutatesInOneSection = true := by decide
 
+/-- Every operation of the model that changes `Aux.methods` (`defmethod`, `remove`, `redefine`) leaves
+    an empty cache (`cache_coherent`); in the code every function that writes the method table —
+    whichever entry point it serves, a re-evaluated `defgeneric` that keeps the `Aux` included —
+    must reset the cache too (`redefine_forgets_history`). -/
+theorem every_table_writer_resets_cache : everyTableWriterResetsCache = true := by decide
+
 /-- The model's cache key is the list of class precedence lists of the required arguments
     (`Op.call precs`, `class_redefinition_coherent`): the code's key must be made of the whole
     `Hierarchy()` of each required argument, not of its first element (the class name). -/
